@@ -288,6 +288,9 @@ def run_abandon_lockstep(res, pid, seed, tier, envs=(None,)):
                                  "cursor_field_loads_checked", "ignored_oscount_alock_accesses"), m.groups()):
                     if k: stats[k] += int(v)
                 stats["max_state_set"] = max(stats["max_state_set"], int(m.group(5)))
+            m2 = re.search(r'collect_cursors_checked=(\d+) os_list_pops=(\d+)', mout)
+            if m2:
+                stats["collect_cursors_os_list_part_checked"] += int(m2.group(1)); stats["os_list_pops_of_collect_cursors"] += int(m2.group(2))
             hm = re.search(r'^HIST (.*)$', mout, re.M)
             if hm:
                 for kv in hm.group(1).split():
